@@ -13,7 +13,8 @@ LEVEL = "exploration"
 RULE = (
     "one case per generated data program: .db/.dw/.dl/.pointer lists of length 1-12 over boundary, negative and wider-than-field values, "
     "constants, backward and forward labels and label differences; .ascii over printable characters; .incbin of random files of length "
-    "0-70000 placed to end before/at/after a bank end (also from a sub-directory), with their start and __size symbols and the label after "
+    "0-70000 placed to end before/at/after a bank end (also from a sub-directory); data inside a scope referring to a name that scope "
+    "defines further down while an outer constant of the same name exists; with their start and __size symbols and the label after "
     "each directive read back through .dl; judged by an independent little-endian/two's-complement packer and the mapping reference; "
     "T-node checks predicted size = emitted bytes per directive node; distinct by hash of source + file digests; non-trivial = accepted"
 )
@@ -158,6 +159,33 @@ def gen_program(rng: random.Random) -> dict:
     return {"prog": prog, "files": files, "tables": {}, "rom": rom, "addr": addr, "expected": bytes(expected), "labels": labels}
 
 
+def gen_shadow_program(rng: random.Random) -> dict:
+    """Data inside a scope that refers to a name of its own scope defined further down, while the enclosing scope has a
+    constant of the same name (known earlier): the value emitted is the innermost definition's."""
+    addr = rng.choice([0x008000, 0x018100])
+    outer = rng.choice([2, 0x55, 0x1234])
+    d = rng.choice(list(WIDTH))
+    w = WIDTH[d]
+    kind = rng.choice(["label", "sym", "const"])
+    wrap = rng.choice(["block", "scope"])
+    inner_value = {"label": None, "sym": rng.randrange(1 << 20), "const": rng.randrange(1 << 20)}[kind]
+    inner_stmts = [{"k": "data", "d": d, "es": [[sym("count")], [sym("count"), ["op", "+"], num(1)]]}]
+    n_inner = 2 * w
+    if kind == "label":
+        inner_value = rm.advance(rm.config_for("low"), addr, w + n_inner)
+        inner_stmts.append({"k": "label", "n": "count"})
+    elif kind == "sym":
+        inner_stmts.append({"k": "sym", "n": "count", "e": [num(inner_value)]})
+    else:
+        inner_stmts.insert(0, {"k": "assign", "n": "count", "e": [num(inner_value)]})
+    prog = [{"k": "org", "e": E(addr)}, {"k": "assign", "n": "count", "e": E(outer)}, {"k": "data", "d": d, "es": [[sym("count")]]},
+            {"k": "block", "b": inner_stmts} if wrap == "block" else {"k": "scope", "n": "menu", "b": inner_stmts},
+            {"k": "data", "d": d, "es": [[sym("count")]]}]
+    mask = (1 << (8 * w)) - 1
+    exp = (outer & mask).to_bytes(w, "little") + (inner_value & mask).to_bytes(w, "little") + ((inner_value + 1) & mask).to_bytes(w, "little") + (outer & mask).to_bytes(w, "little")
+    return {"prog": prog, "files": {}, "tables": {}, "rom": "low", "addr": addr, "expected": exp, "labels": {}}
+
+
 def check_program(res: Res, p: dict) -> None:
     src = source(p["prog"])
     digest = [(k, len(v), hash(bytes(v)) & 0xFFFFFFFF) for k, v in p["files"].items()]
@@ -228,7 +256,7 @@ def run_shard(shard: dict) -> Res:
     else:
         rng = random.Random(shard["seed"])
         for i in range(shard["n"]):
-            p = gen_program(rng)
+            p = gen_shadow_program(rng) if i % 10 == 9 else gen_program(rng)
             check_program(res, p)
             if i < 2:
                 res.sample({"rom": p["rom"], "src": source(p["prog"])[:600], "files": {k: len(v) for k, v in p["files"].items()}})
